@@ -17,7 +17,7 @@ import (
 //	newrow      tabular.NewRow()                      (pending row)
 //	newrowcap   tabular.NewRowWithCapacity(Cap)       (pending row)
 //	newrowsized t.NewRowSizedFor()                    (pending row)
-//	rowadd      <row Ref of all rows created so far>.Add(NewCell(Items[0]))
+//	rowadd      <row Ref of all rows created so far>.Add(NewCell(item)) for each of Items
 //	addrow      t.AddRow(<pending row Ref>)
 //	sep         AddSeparator()
 //	appendnew   t.AppendNewRow()
@@ -227,18 +227,20 @@ func (m *Model) Step(t tabular.Table, op Op) {
 			return
 		}
 		r := m.All[mod(op.Ref, len(m.All))]
-		c := mcell(op.Items[0])
-		r.Real.Add(tabular.NewCell(c.Live.V))
-		if r.Sep || r.NilCells {
-			m.SepAdd = true
-			return // refused: a separator (or zero-value row) holds no cells
-		}
-		r.Cells = append(r.Cells, c)
-		if r.Attached {
-			r.LateAdds++
-			m.LateAdd = true
-			if len(r.Cells) > m.MaxEver {
-				m.MaxEver = len(r.Cells)
+		for _, it := range op.Items {
+			c := mcell(it)
+			r.Real.Add(tabular.NewCell(c.Live.V))
+			if r.Sep || r.NilCells {
+				m.SepAdd = true
+				continue // refused: a separator (or zero-value row) holds no cells
+			}
+			r.Cells = append(r.Cells, c)
+			if r.Attached {
+				r.LateAdds++
+				m.LateAdd = true
+				if len(r.Cells) > m.MaxEver {
+					m.MaxEver = len(r.Cells)
+				}
 			}
 		}
 	default:
